@@ -44,11 +44,12 @@ func main() {
 	modes := []string{"random", "hold-drainer", "hold-engine-exit", "none", "random", "hold-both"}
 	for i := 0; i < nb; i++ {
 		b := batch{idx: i, nscen: 14, ngpu: 1 + i%2, mode: modes[i%len(modes)]}
-		if i%6 == 5 {
-			b.timing = true
-			b.nscen = 3
-		}
 		batches = append(batches, b)
+	}
+	// timing platform (DMA copy path, caches, flushes): fewer, slower scenarios
+	nt := c.N(12, 160)
+	for i := 0; i < nt; i++ {
+		batches = append(batches, batch{idx: 500 + i, nscen: 4, ngpu: 1 + i%2, mode: modes[i%len(modes)], timing: true})
 	}
 	// the plain blocking-copy loop that exposed both liveness defects
 	loops := c.N(4, 48)
